@@ -11,7 +11,7 @@
      stanza of the file, and the k-th recorded match of stanza i and the k-th block of lms tagged i select the same nodes for
      every capture expression of that stanza (statements at any depth, shorthand bodies, the full-match capture) — the strict
      one through the stanza index, the merged one through the file index. *)
-From TSG Require Export Model.Lazy.
+From TSG Require Export Model.Run.
 
 Fixpoint norm_expr (e : expr) : expr :=
   match e with
@@ -118,3 +118,12 @@ Fixpoint idx_relb (fl : file) (sts : list stanza) (sms sms' : list (list qmatch)
 Definition idx_agreeb (fl : file) (sms : list (list qmatch)) (lms : list (N * qmatch)) : bool :=
   let n := length (f_stanzas fl) in
   forallb (fun pm : N * qmatch => N.ltb (fst pm) (N.of_nat n)) lms && idx_relb fl (f_stanzas fl) sms (regroup n lms).
+
+(* the recorded case with both interpreters' inputs in ONE index space: the normalized file, and as per-stanza (strict) matches the
+   merged-query matches regrouped by stanza.  Its strict run is the strict run of the recorded case when `idx_agreeb` holds; its lazy
+   run is the lazy run of the recorded case (Proofs/IdxBridge.v run_one_reindex). *)
+Definition real_smatches (r : run_in) : list (list qmatch) := regroup (length (f_stanzas (ri_file r))) (ri_lmatches r).
+Definition normalize_run (r : run_in) : run_in :=
+  {| ri_lazy := ri_lazy r; ri_file := normalize_file (ri_file r); ri_rxs := ri_rxs r; ri_tbl := ri_tbl r; ri_supplied := ri_supplied r;
+     ri_smatches := real_smatches r; ri_lmatches := ri_lmatches r |}.
+Definition run_idx_agreeb (r : run_in) : bool := idx_agreeb (ri_file r) (ri_smatches r) (ri_lmatches r).
